@@ -1,0 +1,9 @@
+//go:build !verif
+
+package files
+
+func verifRead(r *Reader, op string, offset int, length int, buf []byte, n int) {}
+
+func verifRefill(requested int64, windowStart int64, bytesRead int) {}
+
+func verifOpenWrite(path string) {}
